@@ -148,7 +148,7 @@ def _apply_localfn(fn, args, kwargs, env):
 def children(e):
     """Yield direct sub-expressions."""
     k = e[0]
-    if k in ('const', 'name', 'opaque', 'sig', 'obj', 'idx', 'acc', 'carry', 'final', 'undef', 'bv', 'enum', 'localfn'):
+    if k in ('const', 'name', 'opaque', 'sig', 'obj', 'listacc', 'idx', 'acc', 'carry', 'final', 'undef', 'bv', 'enum', 'localfn'):
         return
     if k == 'item':
         return
@@ -224,7 +224,7 @@ def subst(e, fn):
 
     def r(x):
         return subst(x, fn)
-    if k in ('const', 'name', 'opaque', 'sig', 'obj', 'idx', 'item', 'acc', 'carry', 'final', 'undef', 'bv', 'enum', 'localfn'):
+    if k in ('const', 'name', 'opaque', 'sig', 'obj', 'listacc', 'idx', 'item', 'acc', 'carry', 'final', 'undef', 'bv', 'enum', 'localfn'):
         out = e
     elif k == 'attr':
         out = ('attr', r(e[1]), e[2])
@@ -408,6 +408,13 @@ def _norm1(e, ctx):
             return ('has', args[0], args[1][1])
         if fn == ('name', 'getattr') and len(args) == 3 and args[1][0] == 'const':
             return ('phi', ('has', args[0], args[1][1]), ('attr', args[0], args[1][1]), args[2])
+        if fn[0] == 'attr' and fn[2] == 'word_select' and len(args) == 2 and not kwargs:
+            # x.word_select(k, w) == x[k*w : (k+1)*w]   (amaranth: constant in-range offsets; used on targets and values alike)
+            k_, w_ = args
+            return ('sub', fn[1], ('slice', ('bin', '*', k_, w_), ('bin', '*', ('bin', '+', k_, ('const', 1)), w_), ('const', 1)))
+        if fn[0] == 'attr' and fn[2] == 'bit_select' and len(args) == 2 and not kwargs:
+            o_, w_ = args
+            return ('sub', fn[1], ('slice', o_, ('bin', '+', o_, w_), ('const', 1)))
         if fn == ('name', 'slice') and not kwargs and 1 <= len(args) <= 3:
             if len(args) == 1:
                 return ('slice', ('const', 0), args[0], ('const', 1))
@@ -467,6 +474,10 @@ def _norm1(e, ctx):
             op, a, b = '<=', b, a
         if op == '<=':
             return ('un', 'not', ('cmp', '<', b, a))       # one order relation only: a <= b  ==  not (b < a)
+        if op in ('==', '!=') and a[0] == 'tuple' and b[0] == 'tuple' and len(a[1]) == len(b[1]) and a[1] and \
+                not any(x[0] == 'star' for x in a[1] + b[1]):
+            conj = ('and', tuple(('cmp', '==', x, y) for x, y in zip(a[1], b[1])))
+            return conj if op == '==' else ('un', 'not', conj)
         if op in ('==', '!='):
             # linear canonical form: (a - b) == 0 with positive leading coefficient
             if not _has_str(a) and not _has_str(b) and _is_arith(a) and _is_arith(b):
@@ -579,6 +590,9 @@ def _norm1(e, ctx):
         return (k, tuple(flat))
     if k == 'sub':
         b = e[1]
+        if b[0] in ('tuple', 'list') and e[2][0] == 'const' and isinstance(e[2][1], int) and not any(x[0] == 'star' for x in b[1]) \
+                and -len(b[1]) <= e[2][1] < len(b[1]):
+            return b[1][e[2][1]]                        # (a, b, c)[1] == b
         if b[0] == 'call' and b[1][0] == 'attr' and b[1][2] == 'get' and len(b[2]) == 1 and not b[3]:
             return ('sub', ('sub', b[1][1], b[2][0]), e[2])     # D.get(k)[i] == D[k][i] (subscripting implies presence)
         return None
@@ -704,6 +718,8 @@ def show(e):
         return f"${e[2]}#{e[1]}"
     if k == 'obj':
         return f"@{e[2]}#{e[1]}"
+    if k == 'listacc':
+        return f"list#{e[1]}"
     if k == 'idx':
         return f"idx<{e[1]}>"
     if k == 'item':
